@@ -24,13 +24,15 @@ pub fn build_model(sys: &System) -> RealModel {
         NetKind::Dup => Network::new_unordered_duplicating(envs),
         NetKind::NonDup => Network::new_unordered_nonduplicating(envs),
     };
-    ActorModel::new(sys.hist.clone(), Hist::default())
-        .actors(sys.tables.iter().map(|t| ScriptActor(Arc::new(t.clone()))))
-        .init_network(net)
-        .lossy_network(if sys.lossy { LossyNetwork::Yes } else { LossyNetwork::No })
-        .max_crashes(sys.max_crashes)
-        .record_msg_in(rec_in)
-        .record_msg_out(rec_out)
+    let actors = sys.tables.iter().map(|t| ScriptActor(Arc::new(t.clone())));
+    let lossy = if sys.lossy { LossyNetwork::Yes } else { LossyNetwork::No };
+    // the builder calls commute: configure in either order
+    let m = if sys.crashes_first {
+        ActorModel::new(sys.hist.clone(), Hist::default()).max_crashes(sys.max_crashes).lossy_network(lossy).init_network(net).actors(actors)
+    } else {
+        ActorModel::new(sys.hist.clone(), Hist::default()).actors(actors).init_network(net).lossy_network(lossy).max_crashes(sys.max_crashes)
+    };
+    m.record_msg_in(rec_in).record_msg_out(rec_out)
 }
 
 pub fn key_of(a: &RealAction) -> AKey {
@@ -277,6 +279,10 @@ pub fn walk(sc: &WalkScenario) -> WalkOutcome {
         }
         for k in ref_steps.keys() {
             if !real_steps.contains_key(k) {
+                // with somebody down, every step of an actor that is up must still be possible
+                if rf.down.iter().any(|d| *d) && !matches!(k, AKey::Crash(_) | AKey::Drop(..)) && !rf.down.get(actor_of(k)).cloned().unwrap_or(false) {
+                    v.push(Violation::new("C09", "bystander-step-missing", format!("with actors {:?} down, actor {} (up) can no longer take step {:?}", rf.down, actor_of(k), k)));
+                }
                 if matches!(k, AKey::Crash(_)) {
                     v.push(Violation::new("C09", "crash-offer", format!("crash of actor {} is allowed ({} of {} down) but not offered", actor_of(k), rf.down.iter().filter(|d| **d).count(), sc.sys.max_crashes)));
                 } else if matches!(k, AKey::Drop(..)) {
